@@ -248,3 +248,39 @@ func packClimbsAboveRoot(name, target string) bool {
 	}
 	return false
 }
+
+// HarnessC05Reuse: one Packer with a relative allow-list entry used for two different source
+// roots. "../e" means /w/e for the root /w/s and /w/q/e for the root /w/q/r; what the first call
+// allowed must not leak into the second.
+func HarnessC05Reuse() {
+	packWorld()
+	envMkdir("/w/q", 0755, 100)
+	envMkdir("/w/q/r", 0755, 100)
+	envMkdir("/w/q/e", 0755, 100)
+	envWriteFile("/w/q/e/k", 0644, 100, "QK")
+	envWriteFile("/w/q/r/f", 0644, 1000, "F")
+	t1 := verif.String("target1", 1, verif.Param("nLink", 6))
+	verif.Assume(noNUL(t1))
+	envSymlink("/w/s/l", t1, 1000)
+	t2 := []string{"/w/e/k", "../../e/k", "../e/k", "/w/q/e/k", "f"}[verif.Choose("target2", 5)]
+	envSymlink("/w/q/r/l", t2, 1000)
+	p := &Packer{allowSymlinkTargets: []string{"../e"}}
+	if verif.Bool("deref") {
+		p.dereference = true
+	}
+	envBaseline()
+	_, err1 := p.Pack("/w/s", envWriter())
+	verif.ObserveBool("first", err1 == nil)
+	envTarResetOutput()
+	_, err2 := p.Pack("/w/q/r", envWriter())
+	verif.Reach("second-pack")
+	if err2 != nil {
+		return
+	}
+	for _, e := range envTarWritten() {
+		if e.Typeflag == tar.TypeSymlink {
+			where := refLinkTarget("/w/q/r", e.Name, e.Linkname)
+			verif.Assert("C05-out-of-tree-link-stored-only-if-allow-listed", refHasPrefix(where, []string{"w", "q", "r"}) || refHasPrefix(where, []string{"w", "q", "e"}))
+		}
+	}
+}
